@@ -11,6 +11,7 @@ import (
 	"fmt"
 	"io"
 	"math"
+	"net"
 	"reflect"
 	"strings"
 
@@ -397,6 +398,7 @@ type gen struct {
 	server  string
 	protos  []string
 	variant string // Coq constructor
+	public  bool   // also run the sequence through UClient + BuildHandshakeState
 }
 
 func (g *gen) input() map[string]any {
@@ -411,17 +413,112 @@ func (g *gen) input() map[string]any {
 	return m
 }
 
-func (g *gen) call() (obs, error) {
-	seed := g.seed // generateRandomizedSpec keeps the pointer; give each call its own copy
+// build: the two-step sequence the property is about. ONE ClientHelloID object with ONE *PRNGSeed and ONE *Weights is
+// built from twice (generateRandomizedSpec keeps and dereferences these pointers; a Roller or a caller reusing an id
+// shares them between connections). After each build the inputs must be what the caller put in.
+type built struct {
+	o1, o2     obs
+	err1, err2 error
+	seedAfter  tls.PRNGSeed
+}
+
+func idFor(client string, seed *tls.PRNGSeed, w *tls.Weights) tls.ClientHelloID {
+	id := tls.ClientHelloID{Client: client, Version: tls.HelloRandomized.Version, Seed: seed, Weights: w}
+	switch client {
+	case tls.HelloRandomized.Client:
+		id = tls.HelloRandomized
+	case tls.HelloRandomizedALPN.Client:
+		id = tls.HelloRandomizedALPN
+	case tls.HelloRandomizedNoALPN.Client:
+		id = tls.HelloRandomizedNoALPN
+	}
+	id.Seed, id.Weights = seed, w
+	return id
+}
+
+var defaultWeightsAtStart = tls.DefaultWeights
+
+func (g *gen) build(r *reporter) built {
+	seed := new(tls.PRNGSeed)
+	*seed = g.seed
 	var w *tls.Weights
 	if g.w != nil {
 		w = weightsFrom(g.w)
 	}
-	p, err := tls.VerifGenerateRandomizedSpec(g.client, &seed, w, g.server, append([]string(nil), g.protos...))
-	if err != nil {
-		return obs{}, err
+	id := idFor(g.client, seed, w)
+	id0 := id
+	protos := append([]string(nil), g.protos...)
+	var b built
+	inputsKept := func(step string) {
+		if *seed != g.seed {
+			r.fail("seed-mutated", "generateRandomizedSpec changed the caller's PRNG seed ("+step+")", g, fmt.Sprintf("%x", seed[:]), fmt.Sprintf("%x", g.seed[:]))
+		}
+		if id.Seed != seed || id.Client != id0.Client || id.Version != id0.Version {
+			r.fail("id-mutated", "generateRandomizedSpec changed the ClientHelloID ("+step+")", g, fmt.Sprint(id.Client, id.Version, id.Seed == seed), "unchanged")
+		}
+		if w != nil && (id.Weights != w || fmt.Sprint(math.Float64bits(0), wbytes(weightsVec(w))) != fmt.Sprint(math.Float64bits(0), wbytes(g.w))) {
+			r.fail("weights-mutated", "generateRandomizedSpec changed the caller's Weights ("+step+")", g, weightsVec(w), g.w)
+		}
+		if w == nil && id.Weights != nil && id.Weights != &tls.DefaultWeights {
+			r.fail("weights-mutated", "nil Weights replaced by something other than &DefaultWeights ("+step+")", g, nil, "&DefaultWeights")
+		}
+		if fmt.Sprintf("%x", wbytes(weightsVec(&tls.DefaultWeights))) != fmt.Sprintf("%x", wbytes(weightsVec(&defaultWeightsAtStart))) {
+			r.fail("default-weights-mutated", "DefaultWeights changed ("+step+")", g, weightsVec(&tls.DefaultWeights), weightsVec(&defaultWeightsAtStart))
+		}
+		if fmt.Sprint(protos) != fmt.Sprint(g.protos) && len(g.protos) > 0 {
+			r.fail("nextprotos-mutated", "generateRandomizedSpec changed the caller's NextProtos ("+step+")", g, protos, g.protos)
+		}
 	}
-	return observe(&p), nil
+	p1, err1 := tls.VerifGenerateRandomizedSpecID(&id, g.server, protos)
+	inputsKept("first build")
+	p2, err2 := tls.VerifGenerateRandomizedSpecID(&id, g.server, protos)
+	inputsKept("second build")
+	b.err1, b.err2 = err1, err2
+	if err1 == nil {
+		b.o1 = observe(&p1)
+	}
+	if err2 == nil {
+		b.o2 = observe(&p2)
+	}
+	b.seedAfter = *seed
+	return b
+}
+
+type nullConn struct{ net.Conn }
+
+// publicPath: the same sequence through the public API - two UClient(...) from ONE id value (so both UConns share the
+// Seed pointer, as with a Roller or an id kept by the application) + BuildHandshakeState. Both connections must offer
+// the fingerprint of the direct call (suites, extension order and parameters; key-share data is per-connection
+// material), and the caller's seed must survive.
+func (g *gen) publicPath(r *reporter, want obs) {
+	seed := new(tls.PRNGSeed)
+	*seed = g.seed
+	var w *tls.Weights
+	if g.w != nil {
+		w = weightsFrom(g.w)
+	}
+	id := idFor(g.client, seed, w)
+	var got [2]string
+	for k := 0; k < 2; k++ {
+		cfg := &tls.Config{ServerName: g.server, NextProtos: append([]string(nil), g.protos...), InsecureSkipVerify: g.server == ""}
+		uc := tls.UClient(nullConn{}, cfg, id)
+		if err := uc.BuildHandshakeState(); err != nil {
+			r.fail("public-build-error", "BuildHandshakeState failed for a randomized id: "+err.Error(), g, err.Error(), "nil")
+			return
+		}
+		if *seed != g.seed {
+			r.fail("seed-mutated", fmt.Sprintf("BuildHandshakeState #%d changed the seed the ClientHelloID points to", k+1), g, fmt.Sprintf("%x", seed[:]), fmt.Sprintf("%x", g.seed[:]))
+		}
+		o := observe(&tls.ClientHelloSpec{CipherSuites: uc.HandshakeState.Hello.CipherSuites, Extensions: uc.Extensions})
+		o.min, o.max = want.min, want.max // version bounds live in the unexported config copy; suites/extensions are compared
+		got[k] = o.coq()
+	}
+	r.c.Count("public_path_pairs")
+	if got[0] != got[1] {
+		r.fail("determinism", "two connections built from one ClientHelloID value (shared Seed) offer different fingerprints", g, got[:], "equal")
+	} else if got[0] != want.coq() {
+		r.fail("public-path-differs", "UClient+BuildHandshakeState does not offer the spec generateRandomizedSpec returns for the id", g, got[0], want.coq())
+	}
 }
 
 type tables struct {
@@ -660,11 +757,14 @@ func protosCoq(p []string) string {
 }
 
 func runOne(c *vh.Ctx, r *reporter, tb *tables, g *gen, emit bool) {
-	o1, err1 := g.call()
-	o2, err2 := g.call()
-	// determinism: same ClientHelloID twice
+	b := g.build(r)
+	o1, err1, o2, err2 := b.o1, b.err1, b.o2, b.err2
+	// determinism: the same ClientHelloID object twice
 	if (err1 == nil) != (err2 == nil) || o1.String() != o2.String() {
-		r.fail("determinism", "the same seed, weights and id gave two different specs", g, []string{o1.String(), o2.String()}, "equal")
+		r.fail("determinism", "two builds from the same ClientHelloID (one seed object, same weights) gave different specs", g, []string{o1.String(), o2.String()}, "equal")
+	}
+	if err1 == nil && g.public {
+		g.publicPath(r, o1)
 	}
 	var res string
 	if err1 != nil {
@@ -713,7 +813,8 @@ func runOne(c *vh.Ctx, r *reporter, tb *tables, g *gen, emit bool) {
 			wenc = pk(wbytes(w[:1]))
 		}
 	}
-	term := fmt.Sprintf("CGen %s %s %s %s %s %s %s", variantOf(g.client), wenc, pkPair([]byte(g.server)), protosCoq(g.protos), pk(main), pkList(salted), res)
+	term := fmt.Sprintf("CGen %s %s %s %s %s %s %s %s %s", variantOf(g.client), wenc, pkPair([]byte(g.server)), protosCoq(g.protos), pk(main), pkList(salted), res,
+		pkList(g.seed[:]), pkList(b.seedAfter[:]))
 	key := fmt.Sprintf("%s/%x/%s/%s/%v/%x", g.client, g.seed[:], g.wname, g.server, g.protos, wbytes(w))
 	var sample any
 	if err1 == nil {
@@ -780,7 +881,7 @@ func run(c *vh.Ctx) {
 	// fixed corpus: DefaultWeights, all three variants
 	for _, hs := range corpus {
 		for _, cl := range clients {
-			g := &gen{client: cl, wname: "default", server: "example.com", variant: variantOf(cl)}
+			g := &gen{client: cl, wname: "default", server: "example.com", variant: variantOf(cl), public: true}
 			b, _ := hex.DecodeString(hs)
 			copy(g.seed[:], b)
 			runOne(c, r, tb, g, emit)
@@ -792,7 +893,7 @@ func run(c *vh.Ctx) {
 		c.Rng.Read(seed[:])
 		for k, ws := range wsets {
 			g := &gen{client: clients[(i+k)%3], seed: seed, w: ws.mk(), wname: ws.name,
-				server: servers[c.Rng.Intn(len(servers))], protos: protoSets[c.Rng.Intn(len(protoSets))]}
+				server: servers[c.Rng.Intn(len(servers))], protos: protoSets[c.Rng.Intn(len(protoSets))], public: true}
 			if i%7 == 3 && k == 0 {
 				g.w = weightsVec(&tls.DefaultWeights) // explicit copy of the defaults: must equal the nil case
 				g.wname = "default-explicit"
